@@ -7,6 +7,12 @@ import (
 	"go.uber.org/cff"
 )
 
+var procBase = cff.EmitterStack(cff.NopEmitter(), cff.NopEmitter(), cff.NopEmitter())
+
+// ProcBase returns the process-wide base emitter stack (three no-op
+// emitters; built once, so its slice has spare capacity).
+func ProcBase() cff.Emitter { return procBase }
+
 // RecEmitter is a cff.Emitter that records every event in the Env log.
 type RecEmitter struct {
 	env *Env
